@@ -94,6 +94,9 @@ func runCase(c Case) (fails []*hx.Failure, labels []string, history string) {
 	ef.Close()
 	stderr, _ := os.ReadFile(stderrPath)
 
+	if os.Getenv("VERIF_C16_SHOW_STDERR") != "" {
+		fmt.Printf("---- child stderr\n%s\n", tail(string(stderr), 6000))
+	}
 	var out Outcome
 	if b, err := os.ReadFile(outPath); err == nil {
 		_ = json.Unmarshal(b, &out)
@@ -125,9 +128,8 @@ func runCase(c Case) (fails []*hx.Failure, labels []string, history string) {
 			hx.Harnessf("child ended without outcome and without a fatal error: %v\n%s", runErr, tail(st, 4000))
 		}
 		i := strings.Index(st, m)
-		site := hx.PanicSite(st[i:])
 		before := st[:i]
-		fails = append(fails, hx.Failf("C16/fatal/"+errClass(m)+"/"+site, "the process died while running %s: %s\n%s\n---- log before\n%s", c, m, trimTo(st[i:], 6000), tail(before, 2500)))
+		fails = append(fails, hx.Failf(fatalSignature(m, st[i:], c.SharedTxn), "the process died while running %s: %s\n%s\n---- log before\n%s", c, m, trimTo(st[i:], 6000), tail(before, 2500)))
 	}
 	for i := range out.Failures {
 		f := out.Failures[i]
@@ -148,12 +150,26 @@ func tail(s string, n int) string {
 func verdict(t hx.TB, c Case, fails []*hx.Failure) {
 	var unknown *hx.Failure
 	seen := map[string]bool{}
+	// A listed race on the shared transaction's own state (pending writes, callback lists) leaves
+	// that transaction's effects undefined: the case is cut short there, its accounting and
+	// structure verdicts are not judged. Other race reports, panics and fatal errors still are.
+	corrupting := false
 	for _, f := range fails {
+		if (f.Sig == sigStoreBypass || f.Sig == sigTxnCallbacks) && rec.IsKnown(f.Sig) {
+			corrupting = true
+		}
+	}
+	for _, f := range fails {
+		if corrupting && !strings.HasPrefix(f.Sig, "C16/race/") && !strings.HasPrefix(f.Sig, "C16/panic/") && !strings.HasPrefix(f.Sig, "C16/fatal/") {
+			rec.Label("verdict-not-judged-after-known-shared-txn-race")
+			continue
+		}
 		if seen[f.Sig] {
 			continue
 		}
 		seen[f.Sig] = true
 		if rec.IsKnown(f.Sig) {
+			saveKnownSample(c, f)
 			rec.Check(t, c, f)
 		} else if unknown == nil {
 			unknown = f
@@ -163,6 +179,30 @@ func verdict(t hx.TB, c Case, fails []*hx.Failure) {
 		fmt.Printf("C16 failing case %s\n%s\n", c, trimTo(unknown.Msg, 12000))
 		rec.Check(t, c, unknown)
 	}
+}
+
+var slugRe = regexp.MustCompile(`[^A-Za-z0-9]+`)
+
+// saveKnownSample keeps the first case that hits each listed signature when VERIF_C16_SAVE_KNOWN
+// names a directory (used to produce the replay files under testdata/known).
+func saveKnownSample(c Case, f *hx.Failure) {
+	dir := os.Getenv("VERIF_C16_SAVE_KNOWN")
+	if dir == "" {
+		return
+	}
+	_ = os.MkdirAll(dir, 0o755)
+	path := filepath.Join(dir, slugRe.ReplaceAllString(strings.TrimPrefix(f.Sig, "C16/"), "_")+".json")
+	raw, _ := json.Marshal(c)
+	if old, err := os.ReadFile(path); err == nil {
+		var doc struct {
+			Case json.RawMessage `json:"case"`
+		}
+		if json.Unmarshal(old, &doc) == nil && len(doc.Case) > 0 && len(doc.Case) <= len(raw) {
+			return // keep the smaller one
+		}
+	}
+	out, _ := json.MarshalIndent(map[string]any{"property": "C16", "signature": f.Sig, "message": trimTo(f.Msg, 12000), "case": json.RawMessage(raw)}, "", " ")
+	_ = os.WriteFile(path, out, 0o644)
 }
 
 func has(labels []string, l string) bool {
@@ -208,10 +248,17 @@ func TestReplay(t *testing.T) {
 	for i := 0; i < 6; i++ {
 		fails, labels, hist := runCase(c)
 		rec.Eval(c, nontrivial(labels), labels...)
+		var sigs []string
+		for _, f := range fails {
+			sigs = append(sigs, f.Sig)
+		}
+		fmt.Printf("replay attempt %d signatures: %v\n", i+1, sigs)
 		if len(fails) == 0 {
 			continue
 		}
-		fmt.Printf("replay attempt %d: %d failure(s)\n%s\n", i+1, len(fails), trimTo(hist, 8000))
+		if os.Getenv("VERIF_C16_QUIET") == "" {
+			fmt.Printf("replay attempt %d: %d failure(s)\n%s\n", i+1, len(fails), trimTo(hist, 8000))
+		}
 		verdict(t, c, fails)
 	}
 }
@@ -277,8 +324,9 @@ func captureLogs() {
 						if e == "" {
 							e = line
 						}
-						tr.end(mergeKey(l.Event.DocID, l.Event.Cid["/"]), e, tick)
-						continue
+						if tr.failed(mergeKey(l.Event.DocID, l.Event.Cid["/"]), e, tick) {
+							continue
+						}
 					}
 				}
 			}
